@@ -63,12 +63,22 @@ func runCluster(c *simkit.Ctx, c17 bool) {
 		}
 		nBlocks := 3 + t.Choose(8)
 		withTx, accepted, special := 0, 0, 0
+		seenHash := map[common.Uint256]bool{}
 		for b := 0; b < nBlocks; b++ {
 			n := t.Pick(1, 2, 3, 2, 1, 1)
 			var txs []*types.Transaction
 			var descs []string
 			for i := 0; i < n; i++ {
-				raw, desc := w.genTxBytes(!strict)
+				var raw []byte
+				var desc string
+				if i > 0 && t.Prob(1, 6) {
+					raw, desc = w.genResigned()
+				}
+				if raw == nil {
+					raw, desc = w.genTxBytes(!strict)
+				} else {
+					c.Probe("same_body_other_signers")
+				}
 				tx, why := acceptTx(raw)
 				if tx == nil {
 					c.Logf("tx rejected (%s): %s", why, desc)
@@ -97,6 +107,10 @@ func runCluster(c *simkit.Ctx, c17 bool) {
 						return
 					}
 				}
+				if seenHash[tx.Hash()] {
+					continue // the pool keeps one transaction per hash: a proposer never puts both into the chain
+				}
+				seenHash[tx.Hash()] = true
 				txs = append(txs, tx)
 				descs = append(descs, desc)
 			}
